@@ -153,7 +153,7 @@ class GitWorld:
                             break
                 names = out
             return txt('\n'.join(names))
-        if argv[:2] == ['rev-list', '--count'] and argv[-1].endswith('..HEAD') and all(a in ('--no-merges', '--first-parent') for a in argv[2:-1]):
+        if argv[:2] == ['rev-list', '--count'] and argv[-1].endswith('..HEAD') and all(a in ('--no-merges', '--first-parent', '--ancestry-path') for a in argv[2:-1]):
             t = argv[-1][:-len('..HEAD')]
             i = self.where(t)
             if i is None:
@@ -219,6 +219,9 @@ class GitWorld:
                     break
                 c = self.par[c][0]
             rng = {c for c in chain if c in rng}
+        if '--ancestry-path' in flags:
+            # git: only commits that are both descendants of the excluded commit and ancestors of HEAD
+            rng = {c for c in rng if i < self.k and c in self.desc[i]}
         if '--no-merges' in flags:
             rng = {c for c in rng if len(self.par[c]) < 2}
         return len(rng)
